@@ -115,7 +115,8 @@ HostileChecks(r) ==
   /\ (~bp \/ Rep("body"))
   /\ \A c \in own : (c \in {"display", "debug"} /\ (hp \/ bp)) \/ Rep(c)
   \* diagnostics only (the property demands totality, not a verdict)
-  /\ IF r.calls.parse = "ok" /\ ~p.ok THEN Diag("accepts-invalid", [why |-> p.why, sub |-> p.sub, cls |-> r.cls])
+  /\ IF ~r.diag THEN TRUE
+     ELSE IF r.calls.parse = "ok" /\ ~p.ok THEN Diag("accepts-invalid", [why |-> p.why, sub |-> p.sub, cls |-> r.cls])
      ELSE IF r.calls.parse = "err" /\ p.ok /\ ctxOk /\ ~p.skip THEN Diag("rejects-valid", [cls |-> r.cls])
      ELSE TRUE
 
